@@ -346,7 +346,7 @@ def gen(tier, rng):
     for _ in range(1500 if q else 30000):
         n = rng.randrange(0, 5)
         ints = rng.sample(range(-5, 30), n)
-        strs = rng.sample(['a', 'b1', 'x-1', 'key', '1.0', '+3', ' 2', 'ñ'], rng.randrange(0, 3))
+        strs = rng.sample(['a', 'b1', 'x-1', 'key', '1.0', '+3', ' 2', 'ñ', '\u00b2', '\u0663', '1_0', '\uff11'], rng.randrange(0, 3))
         entries = [[{'int': i}, rand_value(rng)] for i in ints] + [[{'str': s}, rand_value(rng)] for s in strs]
         rng.shuffle(entries)
         yield dict(p=PID, op='json', dict=entries)
